@@ -194,11 +194,12 @@ func tryFindFirstCharClass(node *RegexNode, ccIn **CharSet) int {
 		}
 		start := tryFindFirstCharClass(node.Children[branchStart], ccIn)
 		next := tryFindFirstCharClass(node.Children[branchStart+1], ccIn)
-		if start == -1 || next == -1 {
-			return -1
-		}
+		// a branch that failed makes the collected set unusable, whatever the other one is
 		if start == 0 || next == 0 {
 			return 0
+		}
+		if start == -1 || next == -1 {
+			return -1
 		}
 		return 1
 
